@@ -127,5 +127,34 @@ if total != 25:
     sys.stderr.write("overlay/gen.py: expected 25 m.seed use sites, found %d\n" % total)
     sys.exit(2)
 
+# ---- Badger: every transaction start is a scheduler yield point ----
+# (so that interleavings *inside* the DVID storage driver -- between two Badger
+# transactions of one driver call -- are explored too, however the driver is edited)
+if len(sys.argv) > 3:
+    bdir = sys.argv[3]
+    def patch_abs(path, edits, append=""):
+        s = open(path).read()
+        for old, new, count in edits:
+            n = s.count(old)
+            if n != count:
+                sys.stderr.write("overlay/gen.py: %s: expected %d matches of %r, found %d\n" % (path, count, old, n))
+                sys.exit(2)
+            s = s.replace(old, new)
+        s += append
+        # the module cache cannot be overlaid: bdir is a writable copy used via a go.mod replace
+        open(path, "w").write(s)
+    patch_abs(os.path.join(bdir, "txn.go"), [
+        ("func (db *DB) View(fn func(txn *Txn) error) error {\n", "func (db *DB) View(fn func(txn *Txn) error) error {\n\tif VerifYield != nil {\n\t\tVerifYield(\"View\")\n\t}\n", 1),
+        ("func (db *DB) Update(fn func(txn *Txn) error) error {\n", "func (db *DB) Update(fn func(txn *Txn) error) error {\n\tif VerifYield != nil {\n\t\tVerifYield(\"Update\")\n\t}\n", 1),
+    ], append="""
+
+// VerifYield, when set by the simulation harness, is called at the start of
+// every View/Update transaction and WriteBatch flush (build overlay only).
+var VerifYield func(kind string)
+""")
+    patch_abs(os.path.join(bdir, "batch.go"), [
+        ("func (wb *WriteBatch) Flush() error {\n", "func (wb *WriteBatch) Flush() error {\n\tif VerifYield != nil {\n\t\tVerifYield(\"Flush\")\n\t}\n", 1),
+    ])
+
 json.dump({"Replace": replace}, open(os.path.join(out, "overlay.json"), "w"), indent=1)
 print(os.path.join(out, "overlay.json"))
